@@ -65,7 +65,9 @@ Inductive case : Set :=
 (* datagrams injected into a receiver that has keys: role, keys, state before, datagrams, AEAD table,
    payloads delivered upward, state afterwards *)
 | CRx (is_client : bool) (k : keys) (pre : cstate) (ds : list (list Z)) (tbl : list aead_entry)
-      (delivered : list (list Z)) (post : cstate).
+      (delivered : list (list Z)) (post : cstate)
+(* the same for a receiver that has no keys yet *)
+| CRxNoKeys (is_client : bool) (pre : cstate) (ds : list (list Z)) (delivered : list (list Z)) (post : cstate).
 
 Definition dec_model (buf : list Z) : dec_obs :=
   match decode buf with
@@ -109,6 +111,10 @@ Definition rx_model (is_client : bool) (k : keys) (pre : cstate) (ds : list (lis
   let '(st, out) := recv_all (open_of tbl) unit no_hs is_client (mkRx pre (Some k) 1 tt true) (filter is_dtls ds) in
   (rx_state st, out).
 
+Definition rx_model_nokeys (is_client : bool) (pre : cstate) (ds : list (list Z)) : cstate * list (list Z) :=
+  let '(st, out) := recv_all (open_of []) unit no_hs is_client (mkRx pre None 0 tt true) (filter is_dtls ds) in
+  (rx_state st, out).
+
 Definition check_case (c : case) : bool :=
   match c with
   | CDec buf obs => dec_obs_eqb (dec_model buf) obs
@@ -122,6 +128,9 @@ Definition check_case (c : case) : bool :=
       wire_eqb (map wrec_tuple (g_wire w)) wire && all_done w (length tasks)
   | CRx is_client k pre ds tbl delivered post =>
       let '(s, out) := rx_model is_client k pre ds tbl in
+      cstate_eqb s post && lists_eqb out delivered
+  | CRxNoKeys is_client pre ds delivered post =>
+      let '(s, out) := rx_model_nokeys is_client pre ds in
       cstate_eqb s post && lists_eqb out delivered
   end.
 
@@ -139,6 +148,7 @@ Definition model_out (c : case) : mout :=
   | CConc epoch seq0 tasks sched _ =>
       let w := conc_model epoch seq0 tasks sched in MWire (map wrec_tuple (g_wire w)) (all_done w (length tasks))
   | CRx is_client k pre ds tbl _ _ => let '(s, out) := rx_model is_client k pre ds tbl in MRx s out
+  | CRxNoKeys is_client pre ds _ _ => let '(s, out) := rx_model_nokeys is_client pre ds in MRx s out
   end.
 
 Fixpoint bad_from (i : Z) (cs : list case) : list Z :=
